@@ -41,7 +41,10 @@ def intersect_lines(p0, q0, p1, q1):
     l = (  # noqa: E741 This variable name is non-descriptive in addition to being ambiguous.
         h_ / k_ * e
     )
-    sign = -1 if np.all(h / h_ == k / k_) else +1
+    # h and k are parallel. The sign of their dot product tells whether they
+    # point the same way. (Comparing the normalized vectors for equality is
+    # defeated by rounding.)
+    sign = -1 if np.dot(h, k) > 0 else +1
     return p0 + sign * l
 
 
